@@ -16,6 +16,7 @@
  * The environment acts on f before I acquire f's lock and right after I release it.
  */
 #include "verif.h"
+#define VERIF_RG_POST_STEP      /* framework rule; this code has no atomics besides lock/unlock, whose hooks act before lock and after unlock */
 #include "verif_rg.h"
 #include "parsec/class/parsec_object.c"
 #include "parsec/class/parsec_list.c"
